@@ -2,6 +2,8 @@
 pub mod adsr;
 pub mod clamp;
 pub mod common;
+pub mod glide;
 pub mod lfo;
 pub mod midi;
 pub mod quant;
+pub mod ribbon;
